@@ -583,35 +583,7 @@ func ruleC20_4(c *Ctx) {
 	}
 	if f := c.lookup("cmd.loadKeyFromDisk"); f != nil {
 		okKey, okCert := false, false
-		// load sites: key.LoadKeyDefaults(path) directly, or a call of an unexported helper whose nil result guarantees
-		// a successful LoadKeyDefaults(first, second) on two of its parameters
-		type loadSite struct {
-			call       ssa.CallInstruction
-			recv, path string
-		}
-		var sites []loadSite
-		for _, call := range callsIn(f, "(*in_toto.Key).LoadKeyDefaults") {
-			a := call.Common().Args
-			sites = append(sites, loadSite{call, org(a[0]), org(a[1])})
-		}
-		for _, via := range allCalls(f) {
-			g := via.Common().StaticCallee()
-			if g == nil || g.Blocks == nil || g.Pkg != f.Pkg || g == f || (g.Object() != nil && g.Object().Exported()) || !hasErrResult(via) {
-				continue
-			}
-			for _, inner := range callsIn(g, "(*in_toto.Key).LoadKeyDefaults") {
-				if !c.helperGuarantees(g, inner) {
-					continue
-				}
-				ia := inner.Common().Args
-				p0, ok0 := resolve(ia[0], inner).(*ssa.Parameter)
-				p1, ok1 := resolve(ia[1], inner).(*ssa.Parameter)
-				if ok0 && ok1 && p0.Parent() == g && p1.Parent() == g {
-					va := via.Common().Args
-					sites = append(sites, loadSite{via, org(va[paramIndex(p0)]), org(va[paramIndex(p1)])})
-				}
-			}
-		}
+		sites := c.c20LoadSites(f)
 		for _, site := range sites {
 			call := site.call
 			if site.recv == "global(cmd.key)" && site.path == c.fv("key", "runCmd", "recordCmd", "signCmd") {
@@ -630,6 +602,40 @@ func ruleC20_4(c *Ctx) {
 		c.check(okKey, R, fname(f), "key variable loaded from --key", f.Pos(), "key.LoadKeyDefaults(keyPath)", "the signing key is not loaded from --key")
 		c.check(okCert, R, fname(f), "--cert is attached to the signing key", f.Pos(), "key.KeyVal.Certificate = cert.KeyVal.Certificate after a successful load", "the certificate given with --cert is not attached to the key that signs")
 	}
+}
+
+// load sites: key.LoadKeyDefaults(path) directly, or a call of an unexported helper whose nil result guarantees
+// a successful LoadKeyDefaults(first, second) on two of its parameters
+type c20LoadSite struct {
+	call       ssa.CallInstruction
+	recv, path string
+}
+
+func (c *Ctx) c20LoadSites(f *ssa.Function) []c20LoadSite {
+	var sites []c20LoadSite
+	for _, call := range callsIn(f, "(*in_toto.Key).LoadKeyDefaults") {
+		a := call.Common().Args
+		sites = append(sites, c20LoadSite{call, org(a[0]), org(a[1])})
+	}
+	for _, via := range allCalls(f) {
+		g := via.Common().StaticCallee()
+		if g == nil || g.Blocks == nil || g.Pkg != f.Pkg || g == f || (g.Object() != nil && g.Object().Exported()) || !hasErrResult(via) {
+			continue
+		}
+		for _, inner := range callsIn(g, "(*in_toto.Key).LoadKeyDefaults") {
+			if !c.helperGuarantees(g, inner) {
+				continue
+			}
+			ia := inner.Common().Args
+			p0, ok0 := resolve(ia[0], inner).(*ssa.Parameter)
+			p1, ok1 := resolve(ia[1], inner).(*ssa.Parameter)
+			if ok0 && ok1 && p0.Parent() == g && p1.Parent() == g {
+				va := via.Common().Args
+				sites = append(sites, c20LoadSite{via, org(va[paramIndex(p0)]), org(va[paramIndex(p1)])})
+			}
+		}
+	}
+	return sites
 }
 
 func ruleC20_5(c *Ctx) {
